@@ -313,6 +313,9 @@ class RandInfoBuilder(ModelVisitor,RandIF):
                         ex_randset.add_constraint(c)
                     for c in self._active_randset.soft_constraints():
                         ex_randset.add_constraint(c)
+                    # ... and what is known about its dist constraints
+                    for df,d_l in self._active_randset.dist_field_m.items():
+                        ex_randset.dist_field_m.setdefault(df, []).extend(d_l)
 
                     # Remove the previous randset
                     idx = self._randset_m[self._active_randset]
@@ -407,6 +410,9 @@ class RandInfoBuilder(ModelVisitor,RandIF):
                     
                 for c in self._active_randset.soft_constraints():
                     ex_randset.add_constraint(c)
+                # ... and what is known about its dist constraints
+                for df,d_l in self._active_randset.dist_field_m.items():
+                    ex_randset.dist_field_m.setdefault(df, []).extend(d_l)
 
                 # Remove the previous randset
                 idx = self._randset_m[self._active_randset]
